@@ -164,6 +164,17 @@ theorem MULTI : ∀ (jobs : List Job) (s : State) (k : Nat),
           j hjr
         simpa [runOps] using this
 
+/-- MULTI's distinctness hypothesis is necessary (known finding C14-backup-name-is-another-argument):
+when the backup name of the first file IS the second file, the second file's original content is gone
+after the first file has been processed — it is neither its old nor its new content, nor recoverable. -/
+theorem MULTI_false :
+    let j1 : Job := { target := 0, tmp := 1, orig := 2, backup := true, old := [1], chunks := [[7]] }
+    let j2 : Job := { target := 2, tmp := 3, orig := 4, backup := true, old := [5], chunks := [[8]] }
+    let s0 : State := fun p => if p = 0 then some [1] else if p = 2 then some [5] else none
+    let s := exec s0 ((runOps [j1, j2]).take j1.ops.length)
+    s j2.target ≠ some j2.old ∧ s j2.target ≠ some j2.new ∧ s j2.orig ≠ some j2.old := by
+  decide
+
 /-- non-vacuity: a backup run, the write split in two, stopped between the two renames -/
 example : Whole (exec (fun p => if p = 1 then some [9, 9] else none)
     ((Job.ops { target := 1, tmp := 2, orig := 3, backup := true, old := [9, 9], chunks := [[7], [8]] }).take 4))
